@@ -41,9 +41,9 @@ pub fn plan_for(prop: &str, tier: &str) -> Plan {
     match prop {
         "C01" => {
             p.scenarios = if q {
-                sc(&[("fig8-div", 1), ("fig8-back", 1), ("read-div", 1), ("fig8-back-t4", 0), ("snap-fig8", 1), ("fig8", 1), ("fig8-div", 2), ("snap", 1), ("member", 1), ("crash3", 1)])
+                sc(&[("fig8-div", 1), ("fig8-back", 1), ("read-div", 1), ("fig8-div-gc", 2), ("fig8-back-t4", 0), ("snap-fig8", 1), ("fig8", 1), ("fig8-div", 2), ("snap", 1), ("member", 1), ("crash3", 1)])
             } else {
-                sc(&[("fig8-div", 1), ("fig8-back", 1), ("read-div", 1), ("fig8-back-t4", 0), ("snap-fig8", 1), ("fig8", 1), ("fig8-div", 2), ("snap", 1), ("member", 1), ("crash3", 1), ("fig8-div", 3), ("snap", 2), ("member", 2), ("crash3", 2), ("fig8-pv", 1), ("fig8", 2), ("fig8-div", 4), ("fig8-pv", 0), ("fig8", 3)])
+                sc(&[("fig8-div", 1), ("fig8-back", 1), ("read-div", 1), ("fig8-div-gc", 2), ("fig8-back-t4", 0), ("snap-fig8", 1), ("fig8", 1), ("fig8-div", 2), ("snap", 1), ("member", 1), ("crash3", 1), ("fig8-div", 3), ("snap", 2), ("member", 2), ("crash3", 2), ("fig8-pv", 1), ("fig8", 2), ("fig8-div", 4), ("fig8-pv", 0), ("fig8", 3)])
             };
             p.required_stats = vec![Stat::CommitAdvances, Stat::EntriesApplied, Stat::LeadersSeen];
             p.explanation = "explicit-state exploration; ghost committed-log registry: every report of an index as committed (commit index, hand-out for apply, snapshot install) must agree with the first report, and a node's retained log below its commit index must agree with the registry after every API call".into();
@@ -68,9 +68,9 @@ pub fn plan_for(prop: &str, tier: &str) -> Plan {
         }
         "C04" => {
             p.scenarios = if q {
-                sc(&[("repl", 1), ("repl-i1-sz", 1), ("crash3", 1), ("crash2-async", 1), ("fig8-div", 1), ("fig8-div", 2), ("fig8-back", 0), ("read-div", 1), ("read-div", 2), ("fig8-back-t4", 0), ("crash2-async-loose", 1), ("relead5", 1), ("relead5", 2), ("member-joint", 1), ("member", 1), ("fig8", 1)])
+                sc(&[("repl", 1), ("repl-i1-sz", 1), ("crash3", 1), ("crash2-async", 1), ("fig8-div", 1), ("fig8-div", 2), ("fig8-div-gc", 1), ("fig8-div-gc", 2), ("fig8-back", 0), ("read-div", 1), ("read-div", 2), ("fig8-back-t4", 0), ("crash2-async-loose", 1), ("relead5", 1), ("relead5", 2), ("member-joint", 1), ("member", 1), ("fig8", 1)])
             } else {
-                sc(&[("repl", 1), ("repl-i1-sz", 1), ("crash3", 1), ("crash2-async", 1), ("fig8-div", 1), ("fig8-div", 2), ("fig8-back", 0), ("read-div", 1), ("read-div", 2), ("fig8-back-t4", 0), ("crash2-async-loose", 1), ("relead5", 1), ("relead5", 2), ("member-joint", 1), ("member", 1), ("fig8", 1), ("repl-async", 1), ("repl-gc", 1), ("repl-skip", 1), ("repl", 2), ("crash3-async", 1), ("member-joint", 2), ("member", 2), ("crash3-async-loose", 1), ("repl", 3)])
+                sc(&[("repl", 1), ("repl-i1-sz", 1), ("crash3", 1), ("crash2-async", 1), ("fig8-div", 1), ("fig8-div", 2), ("fig8-div-gc", 1), ("fig8-div-gc", 2), ("fig8-back", 0), ("read-div", 1), ("read-div", 2), ("fig8-back-t4", 0), ("crash2-async-loose", 1), ("relead5", 1), ("relead5", 2), ("member-joint", 1), ("member", 1), ("fig8", 1), ("repl-async", 1), ("repl-gc", 1), ("repl-skip", 1), ("repl", 2), ("crash3-async", 1), ("member-joint", 2), ("member", 2), ("crash3-async-loose", 1), ("repl", 3)])
             };
             p.required_stats = vec![Stat::CommitAdvances, Stat::Crashes];
             p.explanation = "explicit-state exploration; at every leader commit advance: entry of own term and durable (on the simulated disks, not in raft-rs bookkeeping) on a majority of each half of the leader's configuration; non-leader commit never beyond a leader's".into();
@@ -86,9 +86,9 @@ pub fn plan_for(prop: &str, tier: &str) -> Plan {
         }
         "C06" => {
             p.scenarios = if q {
-                sc(&[("crash2", 1), ("crash3", 1), ("crash2-async", 1), ("over", 0), ("member-c4", 0), ("xfer-race", 0), ("crash2-async-loose", 1), ("elect-stale-nosync", 0), ("stale", 0), ("stale-lazy", 0), ("stale-async", 0), ("snap-req", 0), ("crash3-lazy", 1)])
+                sc(&[("crash2", 1), ("crash3", 1), ("crash2-async", 1), ("over", 0), ("member-c4", 0), ("member-fresh", 0), ("member-fresh", 1), ("xfer-race", 0), ("crash2-async-loose", 1), ("elect-stale-nosync", 0), ("stale", 0), ("stale-lazy", 0), ("stale-async", 0), ("snap-req", 0), ("crash3-lazy", 1)])
             } else {
-                sc(&[("crash2", 1), ("crash3", 1), ("crash2-async", 1), ("over", 0), ("member-c4", 0), ("xfer-race", 0), ("crash2-async-loose", 1), ("elect-stale-nosync", 0), ("stale", 0), ("stale-lazy", 0), ("stale-async", 0), ("snap-req", 0), ("crash3-lazy", 1), ("crash2", 3), ("crash3", 2), ("stale-lazy", 1), ("stale-async", 1), ("crash3-async", 1), ("crash2-async-loose", 2), ("elect", 2), ("crash3", 3)])
+                sc(&[("crash2", 1), ("crash3", 1), ("crash2-async", 1), ("over", 0), ("member-c4", 0), ("member-fresh", 0), ("member-fresh", 1), ("xfer-race", 0), ("crash2-async-loose", 1), ("elect-stale-nosync", 0), ("stale", 0), ("stale-lazy", 0), ("stale-async", 0), ("snap-req", 0), ("crash3-lazy", 1), ("crash2", 3), ("crash3", 2), ("stale-lazy", 1), ("stale-async", 1), ("crash3-async", 1), ("crash2-async-loose", 2), ("elect", 2), ("crash3", 3)])
             };
             p.required_stats = vec![Stat::MsgsReleased, Stat::AcksReleased, Stat::VotesGranted, Stat::Crashes, Stat::Restarts];
             p.explanation = "explicit-state exploration over every crash point of the Ready round (after ready(), after k of the writes, after fsync, after persisted sends, after advance) in sync, async and lazy application modes; every released message checked against the node's durable disk at release time; one vote per term across incarnations; term monotone".into();
@@ -113,9 +113,9 @@ pub fn plan_for(prop: &str, tier: &str) -> Plan {
         }
         "C09" => {
             p.scenarios = if q {
-                sc(&[("member-joint", 1), ("member-rm1", 0), ("member-rm1-2v", 0), ("member-mix-page", 0), ("member-joint-al", 0), ("member-jd", 0), ("xfer-cc-al", 0), ("member-fasync", 0), ("member", 1), ("member-eager", 1), ("member-mix", 0)])
+                sc(&[("member-joint", 1), ("member-rm1", 0), ("member-rm1-2v", 0), ("member-mix-page", 0), ("member-joint-al", 0), ("member-jd", 0), ("snap-jback", 0), ("xfer-cc-al", 0), ("member-fasync", 0), ("member", 1), ("member-eager", 1), ("member-mix", 0)])
             } else {
-                sc(&[("member-joint", 1), ("member-rm1", 1), ("member-rm1-2v", 0), ("member-mix-page", 0), ("member-joint-al", 0), ("member-jd", 0), ("xfer-cc-al", 0), ("member-fasync", 0), ("member-mix", 1), ("member", 1), ("member-rm1-2v", 1), ("member-eager", 1), ("member-joint", 2), ("member", 2), ("member-rm1", 2), ("member", 3), ("member-async", 1), ("member-mix", 2)])
+                sc(&[("member-joint", 1), ("member-rm1", 1), ("member-rm1-2v", 0), ("member-mix-page", 0), ("member-joint-al", 0), ("member-jd", 0), ("snap-jback", 0), ("xfer-cc-al", 0), ("member-fasync", 0), ("member-mix", 1), ("member", 1), ("member-rm1-2v", 1), ("member-eager", 1), ("member-joint", 2), ("member", 2), ("member-rm1", 2), ("member", 3), ("member-async", 1), ("member-mix", 2)])
             };
             p.required_stats = vec![Stat::CcAccepted, Stat::CcNeutralised, Stat::ConfApplied, Stat::JointEntered];
             p.explanation = "explicit-state exploration of V1/V2 proposals at leader and follower with apply lag, elections, restarts; proposal filter relation on every accepted conf-change proposal; no election over an unapplied committed change; every node's configuration compared with the reference fold of the applied membership entries".into();
@@ -142,9 +142,9 @@ pub fn plan_for(prop: &str, tier: &str) -> Plan {
         }
         "C15" => {
             p.scenarios = if q {
-                sc(&[("snap", 1), ("snap-joint", 0), ("snap-fig8", 1), ("snap-req", 0), ("snap", 2)])
+                sc(&[("snap", 1), ("snap-joint", 0), ("snap-jback", 0), ("snap-fig8", 1), ("snap-req", 0), ("snap", 2)])
             } else {
-                sc(&[("snap", 1), ("snap-joint", 0), ("snap-fig8", 1), ("snap-req", 0), ("snap", 2), ("snap-req", 1), ("snap-memq", 1), ("snap-req-memq", 0), ("snap-fig8", 2), ("snap-joint", 1), ("snap", 3), ("snap-joint", 2), ("snap", 4)])
+                sc(&[("snap", 1), ("snap-joint", 0), ("snap-jback", 0), ("snap-fig8", 1), ("snap-req", 0), ("snap", 2), ("snap-req", 1), ("snap-memq", 1), ("snap-req-memq", 0), ("snap-fig8", 2), ("snap-joint", 1), ("snap", 3), ("snap-joint", 2), ("snap", 4)])
             };
             p.required_stats = vec![Stat::SnapshotsInstalled, Stat::SnapshotsSent];
             p.explanation = "explicit-state exploration over compaction points, lost/duplicated/stale/reordered MsgSnapshot, status reports, follower crash around the install; install / ignore / fast-forward post-conditions and the leader's send condition as pre/post relations".into();
@@ -170,9 +170,9 @@ pub fn plan_for(prop: &str, tier: &str) -> Plan {
         }
         "C20" => {
             p.scenarios = if q {
-                sc(&[("elect", 1), ("fig8-div", 1), ("crash2", 1), ("over", 0), ("crash2-split", 2), ("member-jd", 0), ("elect-api", 1), ("snap-api", 0), ("xfer-api", 0), ("member-joint-api", 1), ("read-rm1-api", 2), ("crash2-split-api", 2), ("crash2-async", 1), ("member-joint", 1), ("lease", 1), ("snap", 0), ("snap-lazy", 0), ("snap-lag", 0), ("repl-compact-memq", 0), ("repl-compact", 0), ("xfer-lag-cc", 0), ("xfer", 0), ("repl-i1-sz", 1), ("repl-mix", 0), ("read", 1), ("flow", 0), ("flow-cap", 0), ("stale", 0), ("member-rm1", 0), ("member-rm1-2v", 0), ("xfer-abort", 0), ("member", 0), ("xfer-pipe", 0), ("crash2-async-loose", 1), ("stale-async", 0), ("stale-lazy", 0), ("snap-req", 0)])
+                sc(&[("elect", 1), ("fig8-div", 1), ("crash2", 1), ("over", 0), ("crash2-split", 2), ("member-jd", 0), ("member-fresh", 1), ("elect-api", 1), ("snap-api", 0), ("xfer-api", 0), ("member-joint-api", 1), ("read-rm1-api", 2), ("crash2-split-api", 2), ("crash2-async", 1), ("member-joint", 1), ("lease", 1), ("snap", 0), ("snap-lazy", 0), ("snap-lag", 0), ("repl-compact-memq", 0), ("repl-compact", 0), ("xfer-lag-cc", 0), ("xfer", 0), ("repl-i1-sz", 1), ("repl-mix", 0), ("read", 1), ("flow", 0), ("flow-cap", 0), ("stale", 0), ("member-rm1", 0), ("member-rm1-2v", 0), ("xfer-abort", 0), ("member", 0), ("xfer-pipe", 0), ("crash2-async-loose", 1), ("stale-async", 0), ("stale-lazy", 0), ("snap-req", 0)])
             } else {
-                sc(&[("elect", 1), ("fig8-div", 1), ("crash2", 1), ("over", 0), ("crash2-split", 2), ("member-jd", 0), ("elect-api", 1), ("snap-api", 0), ("xfer-api", 0), ("member-joint-api", 1), ("read-rm1-api", 2), ("crash2-split-api", 2), ("crash2-async", 1), ("member-joint", 1), ("lease", 1), ("snap", 0), ("snap-lazy", 0), ("snap-lag", 0), ("repl-compact-memq", 0), ("repl-compact", 0), ("xfer-lag-cc", 0), ("xfer", 0), ("repl-i1-sz", 1), ("repl-mix", 0), ("read", 1), ("flow", 0), ("flow-cap", 0), ("stale", 0), ("member-rm1", 0), ("member-rm1-2v", 0), ("xfer-abort", 0), ("member", 0), ("xfer-pipe", 0), ("crash2-async-loose", 1), ("stale-async", 0), ("stale-lazy", 0), ("snap-req", 0), ("member-rm1-lazy", 1), ("member-rm1-async", 1), ("read-lease", 1), ("read-nofwd", 1), ("repl-fetch", 1), ("repl-gc", 1), ("elect-prio", 1), ("member-mix", 1), ("crash3", 1), ("repl-batch", 1), ("snap", 1), ("stale-lazy", 1), ("stale-async", 1), ("member", 1), ("crash3-lazy", 1), ("crash2-async-loose", 2), ("crash3-async", 1), ("over", 1), ("over-two", 0), ("over-loose", 0), ("fig8", 1), ("xfer", 1), ("flow", 1), ("member-jd", 1), ("member-rm1-api", 0), ("stale-api", 0), ("member-rm1-2v-api", 0), ("snap-req-api", 0), ("repl-compact-memq", 1), ("repl-compact", 1), ("snap-memq", 2), ("snap-fig8-memq", 1)])
+                sc(&[("elect", 1), ("fig8-div", 1), ("crash2", 1), ("over", 0), ("crash2-split", 2), ("member-jd", 0), ("member-fresh", 1), ("elect-api", 1), ("snap-api", 0), ("xfer-api", 0), ("member-joint-api", 1), ("read-rm1-api", 2), ("crash2-split-api", 2), ("crash2-async", 1), ("member-joint", 1), ("lease", 1), ("snap", 0), ("snap-lazy", 0), ("snap-lag", 0), ("repl-compact-memq", 0), ("repl-compact", 0), ("xfer-lag-cc", 0), ("xfer", 0), ("repl-i1-sz", 1), ("repl-mix", 0), ("read", 1), ("flow", 0), ("flow-cap", 0), ("stale", 0), ("member-rm1", 0), ("member-rm1-2v", 0), ("xfer-abort", 0), ("member", 0), ("xfer-pipe", 0), ("crash2-async-loose", 1), ("stale-async", 0), ("stale-lazy", 0), ("snap-req", 0), ("member-rm1-lazy", 1), ("member-rm1-async", 1), ("read-lease", 1), ("read-nofwd", 1), ("repl-fetch", 1), ("repl-gc", 1), ("elect-prio", 1), ("member-mix", 1), ("crash3", 1), ("repl-batch", 1), ("snap", 1), ("stale-lazy", 1), ("stale-async", 1), ("member", 1), ("crash3-lazy", 1), ("crash2-async-loose", 2), ("crash3-async", 1), ("over", 1), ("over-two", 0), ("over-loose", 0), ("fig8", 1), ("xfer", 1), ("flow", 1), ("member-jd", 1), ("member-rm1-api", 0), ("stale-api", 0), ("member-rm1-2v-api", 0), ("snap-req-api", 0), ("repl-compact-memq", 1), ("repl-compact", 1), ("snap-memq", 2), ("snap-fig8-memq", 1)])
             };
             p.required_stats = vec![Stat::BadMsgOffered, Stat::ReadyChecked, Stat::MsgsReleased, Stat::ApiProbes];
             p.explanation = "every API call of every explored execution runs under catch_unwind: a panic, failed assert!/debug_assert!, fatal!, index out of bounds or arithmetic overflow (debug-assertions and overflow-checks are on) is a violation; in every state local-only message types and responses from non-members are offered to step() on a clone and must be rejected with the documented error without changing the state digest; in the -api scenarios every public RawNode entry point (read_index, request_snapshot, ping, campaign on promotable nodes, transfer_leader / report_unreachable / report_snapshot with member, own and unknown ids, propose, propose_conf_change) is offered to a clone of every node in every state and must not panic".into();
